@@ -11,6 +11,53 @@ YIELD(1)
 YIELD(2)
 YIELD(3)
 RETNIL`),
+		G("ctl-control-statement-directly-behind-a-yielding-statement", `
+for i := 0; i < 3; i++ {
+	if tr.B(1) {
+		YIELD(i)
+	}
+	break
+}
+for i := 0; i < 3; i++ {
+	switch tr.N(2, 2) {
+	case 0:
+		YIELD(10 + i)
+	}
+	continue
+}
+for i := 0; i < 2; i++ {
+	if tr.B(3) {
+		YIELD(20 + i)
+	}
+	;
+}
+for {
+	{
+		YIELD(30)
+	}
+	break
+}
+n := 0
+for n < 3 {
+	n++
+	for j := 0; j < 2; j++ {
+		YIELD(40 + j)
+	}
+	if n < 2 {
+		continue
+	}
+	break
+}
+for k := range 2 {
+	if tr.B(4) {
+		YIELD(50 + k)
+	} else {
+		tr.E(5)
+	}
+	continue
+}
+YIELD(99)
+RETNIL`, "for", "break", "continue"),
 		G("if-else-tape", `
 if tr.B(1) {
 	YIELD(1)
